@@ -109,6 +109,20 @@ Theorem C14_checksum_survives_history : forall (h : list commit) (m : list dfile
 Proof. exact checksum_survives_history. Qed.
 Print Assumptions C14_checksum_survives_history.
 
+(* No check/use gap, even when the store changes WHILE the call runs (ts n = the store as the call's n-th storage
+   operation sees it): the data stage makes exactly one storage operation per data file, and every table it returns
+   is the parse of the very bytes that operation returned -- bytes which, with verification on, hash to the recorded
+   checksum.  So a change before a file's one read is judged by C14_checksum on the store of that moment, and a
+   change after it is not seen at all; rows of bytes that were never hashed cannot be returned. *)
+Theorem C14_no_check_use_gap : forall (E : env) (ts : nat -> store) (v : bool) (dfs : list dfile) (t : nat) (tabs : list (list row)),
+  fst (data_stage_t E ts t v dfs) = Ok tabs ->
+  List.length (snd (data_stage_t E ts t v dfs)) = List.length dfs /\
+  forall i df tab, nth_error dfs i = Some df -> nth_error tabs i = Some tab ->
+    exists b, cur_bytes (ts (t + i)%nat) (dpath df) = Some b /\ parquet E b = PqOk tab
+              /\ (v = true -> forall d, dsum df = Some d -> sha E b = d).
+Proof. exact no_check_use_gap. Qed.
+Print Assumptions C14_no_check_use_gap.
+
 (* The model does not raise without cause (so the theorems above are not satisfied by a pipeline that
    always fails): with no transient fault anywhere, metadata that resolves, a complete answer on the
    specification side and recorded checksums that match, every API returns exactly that answer. *)
